@@ -37,7 +37,13 @@ func init() { commands["C10"] = runC10 }
 
 const c10MaxTok = 60
 
+// the token of the EMPTY value (the server accepts empty-valued secrets; the store caches and serves them faithfully)
+const c10EmptyTok = 200
+
 func c10Val(id int) []byte {
+	if id == c10EmptyTok {
+		return []byte{}
+	}
 	h := sha256.Sum256([]byte(fmt.Sprintf("c10-value-%d", id)))
 	n := 1 + (id*5)%23
 	out := append([]byte(nil), h[:n]...)
@@ -48,6 +54,9 @@ func c10Val(id int) []byte {
 }
 
 func c10Tok(b []byte) uint64 {
+	if len(b) == 0 {
+		return c10EmptyTok
+	}
 	for id := 1; id <= c10MaxTok; id++ {
 		if string(b) == string(c10Val(id)) {
 			return uint64(id)
@@ -208,23 +217,25 @@ type c10ProbeEnt struct {
 }
 
 type c10Input struct {
-	Client     string          `json:"client"` // none | script | file
-	Names      []string        `json:"names"`
-	PrefixKind int             `json:"prefix_kind,omitempty"` // index into c10Prefixes: how the struct's prefix is spelled
-	Struct     bool            `json:"struct,omitempty"`      // two more names declared through a tagged struct
-	Structs    []c10StructSpec `json:"structs,omitempty"`     // further entries of StoreConfig.Structs
-	Allow      bool            `json:"allow,omitempty"`
-	Cache      string          `json:"cache"` // none | empty | garbage | doc
-	CacheDoc   []c10CacheEnt   `json:"cache_doc,omitempty"`
-	AgeS       int64           `json:"age_s,omitempty"`
-	Scripts    []c10Script     `json:"scripts,omitempty"`
-	File       []c10FileEnt    `json:"file,omitempty"` // client=file: the members of the file's JSON object, in document order
-	Strict     bool            `json:"strict,omitempty"`
-	DeadlineUs int64           `json:"deadline_us"` // relative to the call; <0 none; 0 = cancelled before the call
-	StartMs    int64           `json:"start_ms,omitempty"`
-	OutageMs   int64           `json:"outage_ms,omitempty"` // (statistics) a name is down this long under a deadline-free context
-	ProbeDtS   int64           `json:"probe_dt_s,omitempty"`
-	Probe      []c10ProbeEnt   `json:"probe,omitempty"`
+	Client      string          `json:"client"` // none | script | file
+	Names       []string        `json:"names"`
+	PrefixKind  int             `json:"prefix_kind,omitempty"` // index into c10Prefixes: how the struct's prefix is spelled
+	Struct      bool            `json:"struct,omitempty"`      // two more names declared through a tagged struct
+	Structs     []c10StructSpec `json:"structs,omitempty"`     // further entries of StoreConfig.Structs
+	Allow       bool            `json:"allow,omitempty"`
+	Cache       string          `json:"cache"` // none | empty | garbage | doc
+	CacheDoc    []c10CacheEnt   `json:"cache_doc,omitempty"`
+	AgeS        int64           `json:"age_s,omitempty"`
+	Scripts     []c10Script     `json:"scripts,omitempty"`
+	File        []c10FileEnt    `json:"file,omitempty"` // client=file: the members of the file's JSON object, in document order
+	Strict      bool            `json:"strict,omitempty"`
+	DeadlineUs  int64           `json:"deadline_us"` // relative to the call; <0 none; 0 = cancelled before the call
+	StartMs     int64           `json:"start_ms,omitempty"`
+	OutageMs    int64           `json:"outage_ms,omitempty"`    // (statistics) a name is down this long under a deadline-free context
+	Many        int             `json:"many,omitempty"`         // (statistics) this many declared names, absent from the cache
+	EmptyCached bool            `json:"empty_cached,omitempty"` // (statistics) complete cache with an empty value, service unreachable
+	ProbeDtS    int64           `json:"probe_dt_s,omitempty"`
+	Probe       []c10ProbeEnt   `json:"probe,omitempty"`
 }
 
 type c10Tagged struct {
@@ -787,6 +798,30 @@ func c10Scenario(t *testing.T, in c10Input, work string, idx int, probe bool) (o
 		_, obs.Writes = c10CoqDocs(cache.writes)
 		cache.writes = nil
 	}
+	if probe && in.Client != "file" {
+		// (the order in which the store visits its map differs from run to run, so the sanity pass may have met a
+		// complete store where this one is not) a declared name that was neither fetched successfully nor offered by
+		// the cache cannot have a value: say so instead of letting the poll below dereference the stub in a goroutine
+		// nobody can recover from
+		got := map[string]bool{}
+		for _, rq := range obs.Reqs {
+			if rq.Ver != 0 {
+				got[rq.Name] = true
+			}
+		}
+		if in.Cache == "doc" {
+			for _, e := range in.CacheDoc {
+				if e.Kind == "ok" {
+					got[e.Name] = true
+				}
+			}
+		}
+		for _, n := range c10Distinct(c10Declared(in)) {
+			if !got[n] {
+				return obs, &DirectVerdict{OK: false, What: fmt.Sprintf("NewStore succeeded although the declared secret %q was neither in the cache nor ever fetched successfully", n)}
+			}
+		}
+	}
 	if probe {
 		// probe poll
 		time.Sleep(time.Duration(in.ProbeDtS) * time.Second)
@@ -1019,7 +1054,93 @@ func c10GenAns(r *rand.Rand, ok bool) c10Ans {
 	return a
 }
 
+// c10GenMany: MANY declared names (17, 33, 41, 64), none of them cached, a healthy service (or one transient
+// failure): every name must be requested in the first round, NewStore succeeds only with all values, and the
+// handle of every name is read afterwards
+func c10GenMany(r *rand.Rand) c10Input {
+	in := c10Input{Client: []string{"script", "script", "http"}[r.IntN(3)], Cache: []string{"none", "empty", "doc"}[r.IntN(3)], DeadlineUs: -1}
+	n := int(c10Pick(r, []int64{17, 17, 33, 33, 41, 64}))
+	in.Many = n
+	for i := 0; i < n; i++ {
+		in.Names = append(in.Names, fmt.Sprintf("m/%02d", i))
+	}
+	r.Shuffle(n, func(i, j int) { in.Names[i], in.Names[j] = in.Names[j], in.Names[i] })
+	if in.Cache == "doc" { // a few of them cached, most not
+		for i := 0; i < 3; i++ {
+			in.CacheDoc = append(in.CacheDoc, c10CacheEnt{Name: fmt.Sprintf("m/%02d", r.IntN(n)/3*3+i%3), Kind: "ok", Ver: 1 + uint32(r.IntN(9)), Val: 1 + r.IntN(c10MaxTok), Last: c10Epoch})
+		}
+		seen := map[string]bool{}
+		var cd []c10CacheEnt
+		for _, e := range in.CacheDoc {
+			if !seen[e.Name] {
+				seen[e.Name] = true
+				cd = append(cd, e)
+			}
+		}
+		in.CacheDoc = cd
+	}
+	flaky := -1
+	if r.IntN(2) == 0 {
+		flaky = r.IntN(n)
+	}
+	for i := 0; i < n; i++ {
+		sc := c10Script{Name: fmt.Sprintf("m/%02d", i), Tail: c10Ans{Ver: 1 + uint32(r.IntN(9)), Val: 1 + r.IntN(c10MaxTok)}}
+		if in.Client == "http" {
+			sc.Tail.HTTP = "200"
+		}
+		if i == flaky {
+			f := c10Ans{Err: "other"}
+			if in.Client == "http" {
+				f = c10Ans{HTTP: "500"}
+			}
+			sc.Seq = []c10Ans{f}
+		}
+		in.Scripts = append(in.Scripts, sc)
+	}
+	in.ProbeDtS = c10Pick(r, []int64{0, 2})
+	return in
+}
+
+// c10GenEmptyCached: a COMPLETE cache in which one secret legitimately has the EMPTY value (version > 0, Value ""),
+// and a service that is unreachable: NewStore must return at once, with no request, and serve the empty bytes
+func c10GenEmptyCached(r *rand.Rand) c10Input {
+	in := c10Input{Client: []string{"script", "http"}[r.IntN(2)], Cache: "doc", EmptyCached: true}
+	in.DeadlineUs = c10Pick(r, []int64{-1, 5000500, 20000500})
+	n := 1 + r.IntN(4)
+	perm := r.Perm(len(c10Pool))
+	empty := r.IntN(n)
+	for i := 0; i < n; i++ {
+		nm := c10Pool[perm[i]]
+		in.Names = append(in.Names, nm)
+		e := c10CacheEnt{Name: nm, Kind: "ok", Ver: 1 + uint32(r.IntN(9)), Val: 1 + r.IntN(c10MaxTok), Last: c10Pick(r, []int64{0, c10Epoch - 20, c10Epoch})}
+		if i == empty {
+			e.Val = c10EmptyTok
+		}
+		in.CacheDoc = append(in.CacheDoc, e)
+		down := c10Ans{Err: "other"}
+		if in.Client == "http" {
+			down = c10Ans{HTTP: []string{"500", "hang"}[r.IntN(2)]}
+			if in.DeadlineUs < 0 {
+				down.HTTP = "500"
+			}
+		}
+		in.Scripts = append(in.Scripts, c10Script{Name: nm, Tail: down})
+	}
+	if r.IntN(3) == 0 { // an undeclared cached secret with an empty value as well
+		in.CacheDoc = append(in.CacheDoc, c10CacheEnt{Name: c10Pool[perm[n]], Kind: "ok", Ver: 2, Val: c10EmptyTok, Last: c10Epoch})
+	}
+	in.Allow = r.IntN(2) == 0
+	in.ProbeDtS = c10Pick(r, []int64{0, 2})
+	return in
+}
+
 func c10Gen(r *rand.Rand) c10Input {
+	switch r.IntN(40) {
+	case 0, 1:
+		return c10GenMany(r)
+	case 2:
+		return c10GenEmptyCached(r)
+	}
 	in := c10Input{Client: "script", Cache: "none", DeadlineUs: -1}
 	// names
 	n := 1 + r.IntN(5)
@@ -1128,6 +1249,9 @@ func c10Gen(r *rand.Rand) c10Input {
 			if mode >= 4 || r.IntN(2) == 0 {
 				in.CacheDoc = append(in.CacheDoc, c10CacheEnt{Name: nm, Kind: "ok", Ver: 1 + uint32(r.IntN(9)), Val: 1 + r.IntN(c10MaxTok), Last: stamp()})
 			}
+		}
+		if len(in.CacheDoc) > 0 && r.IntN(8) == 0 {
+			in.CacheDoc[r.IntN(len(in.CacheDoc))].Val = c10EmptyTok
 		}
 		for _, nm := range c10Pool { // undeclared extras
 			if r.IntN(6) == 0 && !contains(declared, nm) {
@@ -1432,6 +1556,21 @@ func c10Tags(in c10Input, obs c10Obs) []string {
 					break
 				}
 			}
+		}
+	}
+	if in.Many > 0 {
+		tags = append(tags, "many-names", fmt.Sprintf("many-names=%d", in.Many))
+	}
+	if in.EmptyCached {
+		tags = append(tags, "empty-value-in-complete-cache")
+		if obs.Class == "ok" && len(obs.Reqs) == 0 && obs.T == obs.T0 {
+			tags = append(tags, "empty-value-in-complete-cache:silent-success")
+		}
+	}
+	for _, e := range in.CacheDoc {
+		if e.Kind == "ok" && e.Val == c10EmptyTok {
+			tags = append(tags, "cache-entry-with-empty-value")
+			break
 		}
 	}
 	if in.OutageMs > 0 {
